@@ -29,8 +29,14 @@ using namespace datasketches;
 static const uint64_t MAXT = 0x7fffffffffffffffULL;
 typedef std::vector<uint64_t> Vec;
 
-enum Form { F_UPD, F_CO, F_CU, F_DB, F_DC, F_DS, F_WU, F_WC, F_N };
-static const char* const form_name[F_N] = {"upd", "cord", "cunord", "dbytes", "dcomp", "dstream", "wrap", "wrapcomp"};
+// F_L*: LEGACY images of the same (theta, hash set, empty flag), built by hand (see legacy_image_*): serial version 1,
+// serial version 2, and Java-style serial version 3 variants (single-item flag, empty-flag forms, explicit theta=MAX),
+// each consumed through wrap() (W), deserialize(bytes) (B) and deserialize(stream) (S)
+enum Form { F_UPD, F_CO, F_CU, F_DB, F_DC, F_DS, F_WU, F_WC,
+            F_L1W, F_L1B, F_L1S, F_L2W, F_L2B, F_L2S, F_L3W, F_L3B, F_L3S, F_N };
+static const char* const form_name[F_N] = {"upd", "cord", "cunord", "dbytes", "dcomp", "dstream", "wrap", "wrapcomp",
+  "v1wrap", "v1bytes", "v1stream", "v2wrap", "v2bytes", "v2stream", "v3jwrap", "v3jbytes", "v3jstream"};
+static bool form_wrapped(int f) { return f == F_WU || f == F_WC || f == F_L1W || f == F_L2W || f == F_L3W; }
 enum Cls { C_EMPTY, C_EXACT, C_EST, C_ZERO, C_N };
 static const char* const cls_name[C_N] = {"empty", "exact", "est", "zero"};
 
@@ -130,9 +136,9 @@ struct Input {
   bool derived = false;
   std::string desc;
   std::unique_ptr<update_theta_sketch> upd;
-  std::unique_ptr<compact_theta_sketch> f[F_N];   // F_CO, F_CU, F_DB, F_DC, F_DS
-  std::vector<uint8_t> bytes_wu, bytes_wc;
-  std::unique_ptr<wrapped_compact_theta_sketch> wu, wc;
+  std::unique_ptr<compact_theta_sketch> f[F_N];   // compact / deserialized forms
+  std::vector<uint8_t> wb[F_N];                    // bytes under the wrapped forms
+  std::unique_ptr<wrapped_compact_theta_sketch> w[F_N];   // wrapped forms
   bool ordered[F_N];     // ordered flag of each form
   uint64_t last = 0;     // largest entry
 };
@@ -143,9 +149,7 @@ static int eff_form(const Input& in, int form) { return (form == F_UPD && !in.up
 template<typename F> static void with_form(const Input& in, int form, F&& fn) {
   switch (eff_form(in, form)) {
     case F_UPD: fn(*in.upd); return;
-    case F_WU: fn(*in.wu); return;
-    case F_WC: fn(*in.wc); return;
-    default: fn(*in.f[eff_form(in, form)]); return;
+    default: if (form_wrapped(form)) fn(*in.w[form]); else fn(*in.f[eff_form(in, form)]); return;
   }
 }
 // operand through the polymorphic base class theta_sketch (update and compact forms) or wrapped: 2 static types,
@@ -153,9 +157,7 @@ template<typename F> static void with_form(const Input& in, int form, F&& fn) {
 template<typename F> static void with_form2(const Input& in, int form, F&& fn) {
   switch (eff_form(in, form)) {
     case F_UPD: fn(static_cast<const theta_sketch&>(*in.upd)); return;
-    case F_WU: fn(*in.wu); return;
-    case F_WC: fn(*in.wc); return;
-    default: fn(static_cast<const theta_sketch&>(*in.f[eff_form(in, form)])); return;
+    default: if (form_wrapped(form)) fn(*in.w[form]); else fn(static_cast<const theta_sketch&>(*in.f[eff_form(in, form)])); return;
   }
 }
 
@@ -170,6 +172,64 @@ static void check_form(Input& in, int form, const std::string& ctx) {
     if (r.ordered_flag) VF_CHECK(r.ascending, fk + "ordered-but-not-ascending", d);
     in.ordered[form] = r.ordered_flag;
   });
+}
+
+// ------------------------------------------------------------------ hand-built legacy images
+static void put_le(std::vector<uint8_t>& b, size_t off, uint64_t v, int n) { for (int i = 0; i < n; ++i) b[off + i] = static_cast<uint8_t>(v >> (8 * i)); }
+static void put_entries(std::vector<uint8_t>& b, size_t off, const Vec& e) { for (size_t i = 0; i < e.size(); ++i) put_le(b, off + 8 * i, e[i], 8); }
+
+// serial version 1: always 3 preamble longs, no seed hash, no flags; empty <=> numEntries == 0 and theta == MAX
+//   byte0 preLongs=3, 1 serVer=1, 2 type=3, 3-7 unused | u32 numEntries @8, u32 unused | u64 theta @16 | ordered entries @24
+static std::vector<uint8_t> legacy_image_v1(const State& st) {
+  std::vector<uint8_t> b(24 + 8 * st.ent.size(), 0);
+  b[0] = 3; b[1] = 1; b[2] = 3;
+  put_le(b, 8, st.ent.size(), 4);
+  put_le(b, 16, st.empty ? MAXT : st.theta, 8);
+  put_entries(b, 24, st.ent);
+  return b;
+}
+
+// serial version 2: byte0 preLongs (1 empty | 2 exact | 3 estimation), 1 serVer=2, 2 type=3, 3-5 unused, 6-7 seed hash |
+//   [u32 numEntries @8, u32 unused] | [u64 theta @16] | ordered entries
+static std::vector<uint8_t> legacy_image_v2(const State& st, uint64_t seed, Rng& r, std::string& variant) {
+  int pre;
+  if (st.empty) { pre = 1 + static_cast<int>(r.below(3)); variant = "empty-pre" + std::to_string(pre); }
+  else if (st.theta == MAXT) { pre = r.chance(0.7) ? 2 : 3; variant = "exact-pre" + std::to_string(pre); }
+  else { pre = 3; variant = st.ent.empty() ? "zero-pre3" : "est-pre3"; }
+  std::vector<uint8_t> b(8 * pre + 8 * st.ent.size(), 0);
+  b[0] = static_cast<uint8_t>(pre); b[1] = 2; b[2] = 3;
+  if (r.coin()) b[5] = 0x1A;   // flags as Java wrote them (read-only | compact | ordered); not interpreted for v2
+  put_le(b, 6, ref_seed_hash(seed), 2);
+  if (pre >= 2) put_le(b, 8, st.ent.size(), 4);
+  if (pre == 3) put_le(b, 16, st.empty ? MAXT : st.theta, 8);
+  put_entries(b, 8 * pre, st.ent);
+  return b;
+}
+
+// serial version 3 as Java writes / wrote it: flags bit1 read-only, bit2 empty, bit3 compact, bit4 ordered, bit5 single item
+//   empty: 8 bytes with the empty flag, or a longer preamble (2 or 3 longs: numEntries 0, theta MAX) with the empty flag;
+//   one exact entry: preLongs=1 with the single-item flag, entry @8; exact: preLongs 2, or 3 with an explicit theta = MAX;
+//   estimation: preLongs 3; entries ordered (flag set) or not (flag clear)
+static std::vector<uint8_t> legacy_image_v3j(const State& st, uint64_t seed, Rng& r, std::string& variant) {
+  int pre; uint8_t flags = 0x02 | 0x08;
+  Vec e = st.ent;
+  bool single = false;
+  if (st.empty) { pre = 1 + static_cast<int>(r.below(3)); flags |= 0x04 | 0x10; variant = "empty-flag-pre" + std::to_string(pre); }
+  else if (st.theta == MAXT && e.size() == 1 && r.chance(0.7)) { pre = 1; flags |= 0x10 | 0x20; single = true; variant = "single-item-flag"; }
+  else if (st.theta == MAXT) { pre = r.chance(0.6) ? 2 : 3; variant = "exact-pre" + std::to_string(pre); }
+  else { pre = 3; variant = e.empty() ? "zero-pre3" : "est-pre3"; }
+  if (!st.empty && !single) {
+    if (e.size() >= 2 && r.coin()) { std::reverse(e.begin(), e.end()); if (e.size() > 3) std::swap(e[0], e[e.size() / 2]); variant += "-unordered"; }
+    else { flags |= 0x10; variant += "-ordered"; }
+  }
+  std::vector<uint8_t> b(single ? 16 : 8 * pre + 8 * e.size(), 0);
+  b[0] = static_cast<uint8_t>(pre); b[1] = 3; b[2] = 3; b[5] = flags;
+  put_le(b, 6, ref_seed_hash(seed), 2);
+  if (single) { put_le(b, 8, e[0], 8); return b; }
+  if (pre >= 2) put_le(b, 8, e.size(), 4);
+  if (pre == 3) put_le(b, 16, st.empty ? MAXT : st.theta, 8);
+  put_entries(b, 8 * pre, e);
+  return b;
 }
 
 // builds all physical forms from an ordered and an unordered compact source
@@ -191,13 +251,33 @@ static void build_forms(Input& in, const compact_theta_sketch& co, const compact
   }
   {
     auto b = (r.coin() ? co : cu).serialize();
-    in.bytes_wu.assign(b.begin(), b.end());
-    in.wu.reset(new wrapped_compact_theta_sketch(wrapped_compact_theta_sketch::wrap(in.bytes_wu.data(), in.bytes_wu.size(), seed)));
+    in.wb[F_WU].assign(b.begin(), b.end());
+    in.w[F_WU].reset(new wrapped_compact_theta_sketch(wrapped_compact_theta_sketch::wrap(in.wb[F_WU].data(), in.wb[F_WU].size(), seed)));
   }
   {
     auto b = co.serialize_compressed();
-    in.bytes_wc.assign(b.begin(), b.end());
-    in.wc.reset(new wrapped_compact_theta_sketch(wrapped_compact_theta_sketch::wrap(in.bytes_wc.data(), in.bytes_wc.size(), seed)));
+    in.wb[F_WC].assign(b.begin(), b.end());
+    in.w[F_WC].reset(new wrapped_compact_theta_sketch(wrapped_compact_theta_sketch::wrap(in.wb[F_WC].data(), in.wb[F_WC].size(), seed)));
+  }
+  // legacy images of the same logical state, each through wrap / deserialize(bytes) / deserialize(stream)
+  for (int ver = 1; ver <= 3; ++ver) {
+    const int fw = ver == 1 ? F_L1W : ver == 2 ? F_L2W : F_L3W;
+    for (int path = 0; path < 3; ++path) {     // a separately drawn variant of the image per path
+      std::string variant;
+      std::vector<uint8_t> img = ver == 1 ? legacy_image_v1(in.st) : ver == 2 ? legacy_image_v2(in.st, seed, r, variant) : legacy_image_v3j(in.st, seed, r, variant);
+      if (ver == 1) variant = cls_name[classify(in.st)];
+      count(std::string("legacy_image|v") + (ver == 3 ? "3j" : std::to_string(ver)) + "|" + variant);
+      if (path == 0) {
+        in.wb[fw] = img;
+        in.w[fw].reset(new wrapped_compact_theta_sketch(wrapped_compact_theta_sketch::wrap(in.wb[fw].data(), in.wb[fw].size(), seed)));
+      } else if (path == 1) {
+        in.f[fw + 1].reset(new compact_theta_sketch(compact_theta_sketch::deserialize(img.data(), img.size(), seed)));
+      } else {
+        std::stringstream ss(std::ios::in | std::ios::out | std::ios::binary);
+        ss.write(reinterpret_cast<const char*>(img.data()), static_cast<std::streamsize>(img.size()));
+        in.f[fw + 2].reset(new compact_theta_sketch(compact_theta_sketch::deserialize(ss, seed)));
+      }
+    }
   }
   for (int fm = 0; fm < F_N; ++fm) { if (fm == F_UPD && !in.upd) { in.ordered[fm] = false; continue; } check_form(in, fm, ctx); }
   VF_CHECK(in.ordered[F_CO], "form|cord|ordered-flag-not-set", ctx + " input=" + in.desc);
